@@ -23,7 +23,7 @@ ROOT = os.path.dirname(os.path.dirname(os.path.abspath(__file__)))
 
 def sh(cmd, cwd=None, env=None, timeout=1800):
     p = subprocess.run(cmd, cwd=cwd, env=env, stdout=subprocess.PIPE, stderr=subprocess.STDOUT, text=True,
-                       timeout=timeout, shell=isinstance(cmd, str))
+                       errors="replace", timeout=timeout, shell=isinstance(cmd, str))
     return p.returncode, p.stdout
 
 
